@@ -106,6 +106,20 @@ def rs_struct(name, p, q, d, r, s, pad, ind="", split=False):
     return L
 
 
+def nested_variant(lang, name, p):
+    """Class/struct with p public methods whose first method declares a nested helper function in
+    its body: the helper is not a member and must not be counted as a method."""
+    L = GEN[lang][0](name, p, 0, 0, 0, 0, ())
+    i = next(k for k, ln in enumerate(L) if "pub0" in ln)
+    if lang == "py":
+        L[i : i + 2] = ["    def pub0(self):", "        def helper():", "            return 1", "        return helper()"]
+    elif lang in ("ts", "js"):
+        L[i : i + 3] = ["  pub0() {", "    function helper() {", "      return 1;", "    }", "    return helper();", "  }"]
+    else:
+        L[i : i + 1] = ["    pub fn pub0(&self) -> u32 {", "        fn helper() -> u32 { 1 }", "        helper()", "    }"]
+    return L
+
+
 def loc_of(lines, lang):
     cm = "#" if lang == "py" else "//"
     return sum(1 for ln in lines if ln.strip() and not ln.strip().startswith(cm))
@@ -165,7 +179,9 @@ def items(tier: str, seed: int):
         for block in chunks(sh, 10):
             out.append({"kind": "shapes", "lang": lang, "shapes": block})
         out.append({"kind": "overrides", "lang": lang})
+        out.append({"kind": "nested-helper", "lang": lang})
     out.append({"kind": "multi"})
+    out.append({"kind": "mixed-languages"})
     return out
 
 
@@ -178,9 +194,9 @@ def _lint(lang, text, cfg):
     return vs, r
 
 
-def _judge(acc, lang, text, classes, cfg, vs, r, extra_sig=None):
+def _judge(acc, lang, text, classes, cfg, vs, r, extra_sig=None, case_extra=None):
     """classes: list of (name, methods, loc, header_line)."""
-    case = {"lang": lang, "text": text, "srp_config": cfg}
+    case = {"lang": lang, "text": text, "srp_config": cfg, **(case_extra or {})}
     if vs is None:
         acc.fail({"lang": lang, "mode": f"exit{r['exit_code']}"}, case, "exit 0/1", r["stderr"][-300:])
         return
@@ -288,6 +304,47 @@ def run_item(item) -> Acc:
                 cfg = {"max_methods": 50, "max_loc": loc + (5 if top > ovv else -1), "check_keywords": False, other: {"max_loc": loc + (-1 if top > ovv else 5)}}
                 vs, res = _lint(lang, text, cfg)
                 _judge(acc, lang, text, classes, cfg, vs, res, {"override_block": "own-language" if other == lk else "other-language"})
+                # a block that overrides only ONE threshold: the other one still comes from the top level
+                cfg = {"max_methods": methods - 1, "max_loc": 500, "check_keywords": False, other: {"max_loc": 400}}
+                vs, res = _lint(lang, text, cfg)
+                _judge(acc, lang, text, classes, cfg, vs, res, {"override_block": "partial-" + ("own-language" if other == lk else "other-language")})
+                cfg = {"max_methods": 50, "max_loc": loc - 1, "check_keywords": False, other: {"max_methods": 40}}
+                vs, res = _lint(lang, text, cfg)
+                _judge(acc, lang, text, classes, cfg, vs, res, {"override_block": "partial-" + ("own-language" if other == lk else "other-language")})
+    elif k == "nested-helper":
+        lang = item["lang"]
+        for p in (1, 2, 3, 4):
+            cl = nested_variant(lang, "OrderLedger", p)
+            text = "\n".join(cl) + "\n"
+            classes = [("OrderLedger", p, loc_of(cl, lang), 1)]
+            for dm in (-1, 0, 1):
+                if p + dm < 1:
+                    continue
+                cfg = {"max_methods": p + dm, "max_loc": 500, "check_keywords": False}
+                vs, res = _lint(lang, text, cfg)
+                _judge(acc, lang, text, classes, cfg, vs, res, {"layout": "nested-helper-function-in-method"})
+    elif k == "mixed-languages":
+        # one run over files of several languages with per-language override blocks: each file is
+        # judged with the thresholds of ITS language, whatever the order the files are given in
+        texts, cls = {}, {}
+        for lang in GEN:
+            texts[lang], cls[lang] = _render(lang, [("OrderLedger", 3, 1, 0, 0, 0, (), False)])
+        names = {lang: f"shape{GEN[lang][1]}" for lang in GEN}
+        lk = {"py": "python", "ts": "typescript", "js": "javascript", "rs": "rust"}
+        for strict in GEN:  # exactly one language gets a limit below the class's 3 methods
+            cfg = {"max_methods": 5, "max_loc": 500, "check_keywords": False}
+            for lang in GEN:
+                cfg[lk[lang]] = {"max_methods": 2 if lang == strict else 3 + list(GEN).index(lang)}
+            orders = list(itertools.permutations(list(GEN)))[:: 1]
+            for order in orders + ["."]:
+                root = project({**{names[lg]: texts[lg] for lg in GEN}, ".thailint.yaml": yaml_dump({"srp": cfg})})
+                args = ["."] if order == "." else [names[lg] for lg in order]
+                r = obs.cli_json(["srp", *args], root)
+                remove(root)
+                for lang in GEN:
+                    vs = None if r["violations"] is None else [v for v in r["violations"] if v["rule_id"] == "srp.violation" and v["file"].endswith(GEN[lang][1])]
+                    _judge(acc, lang, texts[lang], cls[lang], cfg, vs, r, {"run": "several-languages-in-one-run"},
+                           {"run_files": {names[lg]: texts[lg] for lg in GEN}, "run_args": args})
     elif k == "multi":
         for lang in GEN:
             specs = [("AlphaLedger", 4, 1, 0, 0, 0, (), False), (f"Beta{KEYWORD}", 1, 0, 0, 0, 0, ("blank",), False), ("GammaLedger", 2, 0, 0, 0, 1, ("comment",), False)]
@@ -312,8 +369,21 @@ def replay_case(case) -> list[dict]:
     acc = Acc()
     lang = case["lang"]
     ext = GEN[lang][1]
-    root = project({f"shape{ext}": case["text"], ".thailint.yaml": yaml_dump({"srp": case["srp_config"]})})
-    r = obs.cli_subprocess(["srp", "--format", "json", f"shape{ext}"], root)
+    if case.get("run_files"):
+        root = project({**case["run_files"], ".thailint.yaml": yaml_dump({"srp": case["srp_config"]})})
+        r = obs.cli_subprocess(["srp", "--format", "json", *case["run_args"]], root)
+        print("$ thailint srp", *case["run_args"])
+        import json as _json  # noqa: PLC0415
+
+        try:
+            doc = _json.loads(r["stdout"])
+            doc["violations"] = [v for v in doc.get("violations", []) if str(v.get("file_path", v.get("file", ""))).endswith(ext)]
+            r["stdout"] = _json.dumps(doc)
+        except ValueError:
+            pass
+    else:
+        root = project({f"shape{ext}": case["text"], ".thailint.yaml": yaml_dump({"srp": case["srp_config"]})})
+        r = obs.cli_subprocess(["srp", "--format", "json", f"shape{ext}"], root)
     print(f"srp config: {case['srp_config']}\n--- shape{ext} ---\n{case['text']}\nclass {case.get('class')}: model methods={case.get('methods')} loc={case.get('loc')}")
     print(f"exit={r['exit_code']}\n{r['stdout'][:1200]}")
     vs = [v for v in (obs.parse_json_out(r["stdout"]) or []) if v["rule_id"] == "srp.violation"]
